@@ -355,6 +355,7 @@ def c05(case, trace):
         ever.update(known)
         if k == "load":
             prov, prev_pending = {}, None
+        prov_before = dict(prov)
         if t["pending"] is not None and (t["pending"] != prev_pending or t["attempts"]):
             ptrk = ever.get(t["pending"])
             outcomes = [ok for trk, ok in t["attempts"] if trk == ptrk]
@@ -363,6 +364,16 @@ def c05(case, trace):
             elif outcomes and outcomes[-1]:
                 prov[t["pending"]] = True
         prev_pending = t["pending"]
+        # an entry becomes the current one only through an accepted change: either it was the
+        # pending entry of an accepted switch, or the switch was accepted in this very operation
+        # (stopped state); a restored session starts a new process, where only its own attempts count
+        prev_current = trace[i - 1]["current"] if (i > 0 and k != "load") else None
+        if t["current"] is not None and t["current"] != prev_current and not t["diverged"]:
+            ctrk = ever.get(t["current"])
+            in_op = any(ok for trk, ok in t["attempts"] if trk == ctrk)
+            if not in_op and prov_before.get(t["current"]) is not True and prov.get(t["current"]) is not True:
+                yield ("current_only_if_accepted", {"call": k},
+                       "an entry became the current one although no change to it was accepted", i)
         failed_in_op = [trk for trk, ok in t["attempts"] if not ok]
         # interleave: attempts and events are logged separately; started events in one op come
         # after the attempts of the same op in the core's control flow, except across a
